@@ -23,7 +23,8 @@ RULE = ("(a) Optimiser level: Hypothesis draws (N,W) with NW<=24, a PSD covarian
         "finite/symmetric/PD, every float field of the result and every emitted cost table finite. Non-trivial = condition "
         "number of S > 1e6 or rank(S) < NW or the floor removed at least one entry; distinct by SHA-1 of the case."
         " End to end with a requested floor (1e-4..0.2, both front ends, sometimes after the same run with another floor): every MRF stored by an optimise phase is the floor-filtered image of a matrix the optimiser returned in that round, judged by the caller's floor."
-        ' Pinned optimiser cases with NW = 130, 150, 256.')
+        ' Pinned optimiser cases with NW = 130, 150, 256.'
+        ' Several floors per case coincide exactly with magnitudes the optimiser produced (neighbouring magnitudes included).')
 ASSUMPTIONS = ["a run that raises does not complete and is outside clause (c) (counted as discarded)",
                "optimiser-level inputs are symmetric PSD matrices built as sample covariances of finite data"]
 
